@@ -519,7 +519,7 @@ func (e BridgeEngine) corruptConfirm(r *Run, c *ChainSt, t *Tx) {
 	case 1:
 		t.A["gid"] = "other-gravity-id" // signature for another chain id
 	case 2:
-		t.A["prefix"] = "tron"
+		t.A["prefix"] = "other"
 	case 3:
 		t.A["sigfault"] = "malleate"
 	case 4:
